@@ -151,13 +151,16 @@ func edgesInto(target *ssa.BasicBlock) []Edge {
 // package-level sentinel (short qualified "pkg.Name"), directly.
 func returnsOfGlobal(fn *ssa.Function, sentinel string) []*ssa.Return {
 	var out []*ssa.Return
-	for _, r := range Returns(fn) {
-		ev := retErrVal(r)
-		if ev == nil {
-			continue
-		}
-		if isGlobalLoad(ev, sentinel) {
-			out = append(out, r)
+	// fn and the new helpers it calls (ip.go): a sentinel returned by a helper is returned by the family
+	for _, f := range append([]*ssa.Function{fn}, helpersOf(fn)...) {
+		for _, r := range Returns(f) {
+			ev := retErrVal(r)
+			if ev == nil {
+				continue
+			}
+			if isGlobalLoad(ev, sentinel) {
+				out = append(out, r)
+			}
 		}
 	}
 	return out
